@@ -117,6 +117,12 @@ func (k *RoutineContainer) SetContext(ctx context.Context, restart bool) bool {
 			return
 		}
 
+		if rr.err != nil && !restart && ctx != nil && rr.deferRetry != nil {
+			// the routine failed and is waiting to be retried:
+			// keep the pending retry, it will use the new context.
+			return
+		}
+
 		rr.stop()
 		if rr.err == nil || restart {
 			if ctx != nil {
